@@ -7,7 +7,8 @@
 //!   {"max":M,"sys":S,"steps":[{"step":{..},"post":{..}}, ..]}            a behaviour (Gen = "hist")
 //!   {"max":M,"sys":S,"trans":{"pre":{..},"step":{..},"post":{..}}}       one transition (Gen = "last")
 //! For a transition the pre-state is built through the public API / public fields.
-//! `--overrides c2=1` gives the cluster-level max_connections_per_ip overrides of the spec instance.
+//! `--overrides c2=1` gives the initial cluster-level max_connections_per_ip overrides of the spec instance;
+//! a `SetOverride` step (AddCluster again with another value) changes them, a transition carries them in `pre.ovr`.
 //! stdout: {"kind":"violation",..} lines and one {"kind":"summary",..}.
 use std::cell::RefCell;
 use std::collections::{BTreeMap, BTreeSet, HashMap};
@@ -177,6 +178,19 @@ impl World {
                         sm.slab.try_remove(key);
                     }
                     sm.decr();
+                }
+                None
+            }
+            "SetOverride" => {
+                // AddCluster again: the proxies keep the cluster's max_connections_per_ip and hand it to every gate call
+                let c = step["c"].as_str().unwrap_or("").to_string();
+                match step["v"].as_i64().unwrap_or(-1) {
+                    v if v < 0 => {
+                        self.overrides.remove(&c);
+                    }
+                    v => {
+                        self.overrides.insert(c, v as u64);
+                    }
                 }
                 None
             }
@@ -367,7 +381,12 @@ fn main() {
             steps += 1;
             let limit = tr["pre"]["limit"].as_u64().unwrap_or(0);
             let r = catch_unwind(AssertUnwindSafe(|| {
-                let mut w = World::new(max, sys, limit, &overrides, &clusters, &ips, &model_toks);
+                // the overrides in force are part of the pre-state
+                let pre_ovr: HashMap<String, u64> = match tr["pre"]["ovr"].as_array() {
+                    Some(a) => a.iter().filter_map(|x| Some((x["c"].as_str()?.to_string(), x["v"].as_u64()?))).collect(),
+                    None => overrides.clone(),
+                };
+                let mut w = World::new(max, sys, limit, &pre_ovr, &clusters, &ips, &model_toks);
                 w.build(&tr["pre"], step, tr["frees"].as_u64().unwrap_or(0) as usize)?;
                 let pre = w.project();
                 let dpre = diff(&pre, &tr["pre"], true);
